@@ -302,9 +302,21 @@ def t_trees(ctx, p, mc, real, kind, shard, n, big_budget):
     drive(ctx, f"trees{shard}", strat, lambda c: o_tree(ctx, c), n, ex, shrink=(d < 12))
 
 
+def t_interleaved(ctx, p, count):
+    """Several quadratic moduli over ONE prime used in one process, one after the other and then the
+    first again: a class must not inherit anything (reduction table, cached constants) from another
+    class that merely shares its characteristic and degree."""
+    mods = fc.irreducible_quadratics(p)
+    pick = [mods[0], mods[-1], mods[len(mods) // 2]][:count]
+    seq = pick + [pick[0]]
+    for i, mc in enumerate(seq):
+        t_small_exh(ctx, p, fc.neg_form(mc, p) if i % 2 else mc)
+    ctx.label("interleaved_moduli")
+
+
 def tasks(tier):
     quick = tier == "quick"
-    out = []
+    out = [Task(f"interleaved-fq2-{p}", "t_interleaved", p=p, count=2 if quick else 3) for p in (3, 5)]
     for p in (2, 3, 5, 7, 13):
         out.append(Task(f"exh-fq-{p}", "t_small_exh", p=p, mc=None))
     for p in (2, 3, 5) + (() if quick else (7,)):
